@@ -129,11 +129,17 @@ func (q *Queue) Add(elem *queue.Elem) (err error) {
 		if q.inflightDrained && q.current == nil {
 			return
 		}
+		// the oldest message that is queued, not in flight (before the in-flight entries
+		// have been replayed after a reconnect the cursor still points at them)
+		var front *list.Element
 		for e := q.current; e != nil; e = e.Next() {
 			pub, ok := e.Value.(*queue.Elem).MessageWithID.(*queue.Publish)
 			if !ok {
 				// an in-flight PUBREL that has not been drained yet after a reconnect
 				continue
+			}
+			if pub.ID() == 0 && front == nil {
+				front = e
 			}
 			// drop expired non-inflight message
 			if pub.ID() == 0 &&
@@ -154,12 +160,9 @@ func (q *Queue) Add(elem *queue.Elem) (err error) {
 			return
 		}
 
-		if q.inflightDrained {
-			// drop the front message
-			dropElem = q.current
-			return
-		}
-		// the messages in the queue are all inflight messages, drop the current elem
+		// drop the front message; if the messages in the queue are all inflight
+		// messages, drop the current elem
+		dropElem = front
 		return
 	}
 	return nil
